@@ -96,19 +96,27 @@ fn real_main() -> i32 {
             let mut bad = 0;
             for id in ids {
                 let prop = find(&id);
-                let n = 400;
-                let a = runner::coordinate(prop, Tier::Quick, 1, 16, true, false, Some(n));
-                let b = runner::coordinate(prop, Tier::Quick, 1, 3, true, false, Some(n));
-                let same = a.digests == b.digests && a.digests.len() as u64 == n;
-                println!("determinism {id}: {} runs compared, {}", a.digests.len(), if same { "identical event logs" } else { "DIVERGENCE" });
-                if !same {
-                    for (r, d) in &a.digests {
-                        if b.digests.get(r) != Some(d) {
-                            println!("  run {r}: {d:016x} vs {:?}", b.digests.get(r));
-                            break;
+                let n = prop.runs(Tier::Quick).min(match id.as_str() { "C15" | "C17" => 32, "C07" => 64, "C03" | "C08" => 200, _ => 400 });
+                for offset in [0u64, prop.runs(Tier::Quick).saturating_sub(n)] {
+                    // SAFETY: single-threaded at this point; the variable is read by the spawned workers
+                    unsafe { std::env::set_var("MLASIM_RUN_OFFSET", offset.to_string()) };
+                    let a = runner::coordinate(prop, Tier::Quick, 1, 16, true, false, Some(n));
+                    let b = runner::coordinate(prop, Tier::Quick, 1, 3, true, false, Some(n));
+                    let same = a.digests == b.digests && a.digests.len() as u64 == n;
+                    let skipped = a.digests.values().filter(|d| **d == 0).count();
+                    println!("determinism {id}: runs {offset}..{} executed twice (16 and 3 worker processes), {} on the prod build not comparable, {}", offset + n, skipped, if same { "identical event logs" } else { "DIVERGENCE" });
+                    if !same {
+                        for (r, d) in &a.digests {
+                            if b.digests.get(r) != Some(d) {
+                                println!("  run {r}: {d:016x} vs {:?}", b.digests.get(r));
+                                break;
+                            }
                         }
+                        bad += 1;
                     }
-                    bad += 1;
+                    if offset == prop.runs(Tier::Quick).saturating_sub(n) {
+                        break;
+                    }
                 }
             }
             if bad > 0 { 2 } else { 0 }
